@@ -1781,7 +1781,14 @@ def _takeslice(__array: IntoArray, __s: slice, __axis: int) -> Array:
     s = __s
     axis = __axis
     n = array.shape[axis]
-    if s.step == None or s.step == 1:
+    if (s.step == None or s.step == 1) and isinstance(n, numbers.Integral):
+        start, stop, step = slice(s.start, s.stop).indices(int(n)) # clips out-of-range bounds like numpy does
+        stop = max(start, stop)
+        if start == 0 and stop == n:
+            return array
+        length = stop - start
+        index = _Wrapper(evaluable.Range, _WithoutPoints(_Constant(length)), shape=(length,), dtype=int) + start
+    elif s.step == None or s.step == 1:
         start = 0 if s.start is None else s.start if s.start >= 0 else s.start + n
         stop = n if s.stop is None else s.stop if s.stop >= 0 else s.stop + n
         if start == 0 and stop == n:
